@@ -50,7 +50,7 @@ Proof.
     + right. eexists. split; [done|]. left. done.
     + auto.
   - (* L2 message *)
-    destruct (l2_plain m2) eqn:Hp; [|cbn; auto]. unfold lift2.
+    destruct (l2_adm c (l1 s) m2) eqn:Hp; [|cbn; auto]. unfold lift2.
     destruct (L2.step (c2 c) (l2 s) m2) as [s2 [r|]]; cbn; auto.
   - (* relay *)
     destruct (find_event c (l1 s) k) as [ev|] eqn:Hf; [|cbn; auto]. unfold lift2.
@@ -100,21 +100,29 @@ Proof.
     destruct Hc as [?|(w & Hw' & ->)]; [lia|]. eapply l2ok_amt; eauto.
 Qed.
 
-Lemma plain_faithful m : l2_plain m = true → faithful m.
-Proof. destruct m; cbn; try discriminate; auto. Qed.
+Lemma adm_faithful c s m : nonneg c s → l2_adm c (l1 s) m = true → faithful m.
+Proof.
+  intros [N1 _].
+  induction m as [f|w1 w2 w3 w4|b1 b2 b3 b4|i1 i2|u1 u2|v1 v2 v3|r1 r2|p1 p2 p3|sender inner IH] using msg_ind';
+    intros Ha; try exact I.
+  - destruct (adm_deposit_relay c (l1 s) f Ha) as (ev & Hin & ->). cbn.
+    destruct (N1 ev Hin) as [[_ Hlt] Hto]. split; [done|]. by rewrite two64_same.
+  - apply faithful_exec. rewrite l2_adm_exec in Ha. rewrite forallb_forall in Ha.
+    rewrite List.Forall_forall in IH. apply List.Forall_forall. intros x Hx. apply IH; [done|]. by apply Ha.
+Qed.
 
 Lemma step_l2ok c s m :
   L2.resolve (c2 c) [] = None → nonneg c s → l2ok c s → l2ok c (sys_step c s m).1.
 Proof.
-  intros Hnil [N1 _] Hok. unfold l2ok in *.
+  intros Hnil N Hok. pose proof N as [N1 _]. unfold l2ok in *.
   destruct m as [e sender to d amt data|e from to d amt|m2|k ex h hook|e p idx l2b lo hi v bh|e ch idx|e sender idx m lo hi v bh|e m1|e mo];
     cbn [sys_step].
   - case_bool_decide; [done|]. unfold lift1. destruct (L1.step _ _ _ _) as [s1 [r|]]; done.
   - case_bool_decide; [done|]. unfold lift1. destruct (L1.step _ _ _ _) as [s1 [r|]]; [|done].
     case_bool_decide; done.
-  - destruct (l2_plain m2) eqn:Hp; [|done]. unfold lift2, L2.step.
+  - destruct (l2_adm c (l1 s) m2) eqn:Hp; [|done]. unfold lift2, L2.step.
     destruct (L2.handle (c2 c) (l2 s) m2) as [[s2 r]|] eqn:Hh; [|done]. cbn.
-    eapply handle_inv; eauto. by apply plain_faithful.
+    eapply handle_inv; eauto. eapply adm_faithful; eauto.
   - destruct (find_event c (l1 s) k) as [ev|] eqn:Hf; [|done].
     apply find_elem in Hf as [Hin _]. unfold lift2, L2.step.
     destruct (L2.handle (c2 c) (l2 s) _) as [[s2 r]|] eqn:Hh; [|done]. cbn.
@@ -165,7 +173,7 @@ Proof.
   - case_bool_decide; [done|]. unfold lift1. destruct (L1.step _ _ _ _) as [s1 [r|]]; done.
   - case_bool_decide; [done|]. unfold lift1. destruct (L1.step _ _ _ _) as [s1 [r|]]; [|done].
     case_bool_decide; done.
-  - destruct (l2_plain m2); [|done]. unfold lift2, L2.step.
+  - destruct (l2_adm c (l1 s) m2); [|done]. unfold lift2, L2.step.
     destruct (L2.handle (c2 c) (l2 s) m2) as [[s2 r]|] eqn:Hh; [|done]. cbn. eapply HL2; eauto.
   - destruct (find_event c (l1 s) k) as [ev|]; [|done]. unfold lift2, L2.step.
     destruct (L2.handle (c2 c) (l2 s) _) as [[s2 r]|] eqn:Hh; [|done]. cbn. eapply HL2; eauto.
@@ -404,7 +412,7 @@ Proof.
     destruct (L1.bank_send_msg _ _ _ _ _) as [[s1 r]|] eqn:Hd; [|done].
     apply l1_bank_send_effect in Hd as (_ & _ & _ & Hpr).
     case_bool_decide; cbn [fst]; intros x Hx; cbn in *; rewrite Hpr in Hx; by apply J.
-  - destruct (l2_plain m2); [|done]. unfold lift2, L2.step.
+  - destruct (l2_adm c (l1 s) m2); [|done]. unfold lift2, L2.step.
     destruct (L2.handle (c2 c) (l2 s) m2) as [[s2 r]|] eqn:Hh; [|done]. cbn [fst].
     destruct (handle_wlog_grows _ _ _ _ _ Hh) as (ws & Hw). by eapply Hl2.
   - destruct (find_event c (l1 s) k) as [ev|]; [|done]. unfold lift2, L2.step.
@@ -556,7 +564,7 @@ Proof.
   - case_bool_decide; [done|]. unfold lift1, L1.step. cbn [L1.handle].
     destruct (L1.bank_send_msg _ _ _ _ _) as [[s1 r]|] eqn:Hd; [|done].
     apply l1_bank_send_effect in Hd as (Hbk & _). case_bool_decide; cbn; by eapply Hsend.
-  - destruct (l2_plain m2); [|done]. unfold lift2. destruct (L2.step _ _ _) as [s2 [r|]]; done.
+  - destruct (l2_adm c (l1 s) m2); [|done]. unfold lift2. destruct (L2.step _ _ _) as [s2 [r|]]; done.
   - destruct (find_event c (l1 s) k) as [ev|]; [|done]. unfold lift2. destruct (L2.step _ _ _) as [s2 [r|]]; done.
   - unfold lift1, L1.step. cbn [L1.handle].
     destruct (L1.propose _ _ _ _ _ _ _ _) as [[s1 r]|] eqn:Hd; [|done].
